@@ -79,6 +79,12 @@ pub mod posix {
     use vstd::prelude::*;
     use super::*;
     pub const ECHILD: i32 = 10;
+    // other errno values a change to the code might name (Linux numbering; they only need to differ from ECHILD)
+    pub const EPERM: i32 = 1;
+    pub const ESRCH: i32 = 3;
+    pub const EINTR: i32 = 4;
+    pub const EAGAIN: i32 = 11;
+    pub const EINVAL: i32 = 22;
     pub const WNOHANG: i32 = 1;
     pub const SIGTERM: i32 = 15;
     pub const SIGKILL: i32 = 9;
